@@ -24,9 +24,8 @@
 (*   raw outputs, canary listing before/after, inotify events).             *)
 (* Part 2: the scenario matrix (the set Scenarios is the contract between   *)
 (*   the model, the driver and the trace module).                           *)
-(* Part 3: the resolution mechanism per operation kind, component by        *)
-(*   component, with the what-if constant Follow (TRUE = O_NOFOLLOW /       *)
-(*   AT_SYMLINK_NOFOLLOW dropped) that shows which scenarios have teeth.    *)
+(* (Part 3, the resolution mechanism per operation kind with the what-if    *)
+(*   constant Follow, is module PathWalk.)                                  *)
 (***************************************************************************)
 EXTENDS Entries, Integers
 
